@@ -26,6 +26,49 @@ def fields_by_type(f, struct_suffix, pred):
     return []
 
 
+def type_holds(f, ty, what, depth=3):
+    """does type text `ty` mention `what`, directly or through the fields of local structs it names (newtypes, wrappers)"""
+    if what in ty:
+        return True
+    if depth == 0:
+        return False
+    for p, a in f.adts.items():
+        nm = p.split("::", 1)[1] if p.startswith("zeromq::") else p
+        if a["kind"] == "Struct" and (nm in ty or p in ty):
+            if any(type_holds(f, x["ty"], what, depth - 1) for x in a["variants"][0]["fields"]):
+                return True
+    return False
+
+
+def place_text(e):
+    """`.a.b` style text of a place expression (fields only matter for matching)"""
+    if not isinstance(e, tuple) or not e:
+        return "?"
+    if e[0] == "field":
+        return place_text(e[1]) + "." + str(e[2])
+    if e[0] == "downcast":
+        return place_text(e[1]) + "@" + str(e[2])
+    if e[0] == "deref":
+        return "(*" + place_text(e[1]) + ")"
+    if e[0] == "ref":
+        return place_text(e[1])
+    if e[0] == "arg":
+        return "_%d" % e[1]
+    return "?"
+
+
+def store_hits(ev, field_path):
+    """is this store event a write to a place ending in `.field_path` - in the function's own terms, or (when it happens inside a
+    helper that was looked through, through a reference parameter) in terms of what the reference points to"""
+    if ev.kind != "store":
+        return False
+    sfx = "." + field_path
+    if ev.place.endswith(sfx) or ev.place.endswith(sfx + "#discr"):
+        return True
+    t = getattr(ev, "target", None)
+    return t is not None and place_text(t).endswith(sfx)
+
+
 def trait_impls(f, trait_suffix, method):
     """impl_self -> body of `method` in impls of a trait whose path ends with trait_suffix."""
     out = {}
